@@ -118,7 +118,7 @@ def run(ck):
     binp = ck.go_build("c04")
     if not binp:
         return
-    args = ["-hists", "16", "-steps", "30"] if ck.tier == "quick" else ["-hists", "300", "-steps", "45"]
+    args = ["-hists", "16", "-steps", "30", "-syncs", "6"] if ck.tier == "quick" else ["-hists", "300", "-steps", "45", "-syncs", "60"]
     recs = ck.run_harness(binp, args)
     if recs is None:
         return
@@ -129,7 +129,7 @@ def run(ck):
     ck.cov["rule"] = ("random histories on a real Executer with 1-5 validators: valid successors (slot gaps, payload, events), invalid "
                       "blocks, tip deletions (with/without temp, ABI revert failures), deletions down to the finalized height, delete "
                       "requests for blocks at/below it, forks (delete k, grow a competing branch, then ClearTemp or fail and restore from "
-                      "temp), restarts (close, reopen, PrepareCache). Unit = one step; distinct = (op, purpose, result class, tip at "
+                      "temp), restarts (close, reopen, PrepareCache); two-node histories on real loopback p2p where the peer tip is handed to Executer.process (fork choice, real fast sync against the peer's real RPC handlers, blocks applied with the syncing flag set), observed after every block step inside the sync. Unit = one step; distinct = (op, purpose, result class, tip at "
                       "finalized height, raised finality)")
     ck.extra["histories"] = len(recs)
     ck.extra["finality_raises"] = sum(1 for h in recs for s in h["steps"] if any(e["t"] == "finalize" for e in s["events"]))
@@ -142,6 +142,20 @@ def run(ck):
     ck.extra["max_finality_jump"] = max(jumps or [0])
     ck.extra["delete_requests_after_restart"] = sum(
         1 for h in recs for a, b in zip(h["steps"], h["steps"][1:]) if a["op"] == "restart" and b["op"] in ("delete", "delete_req"))
+    sync_steps = [s for h in recs for s in h["steps"] if s["what"].startswith("sync via Executer.process: apply")]
+    ck.extra["two_node_syncs_through_process"] = sum(1 for h in recs if any(s["what"].startswith("sync via Executer.process") for s in h["steps"]))
+    ck.extra["blocks_applied_during_sync"] = len(sync_steps)
+    ck.extra["finality_raises_during_sync"] = sum(1 for s in sync_steps if any(e["t"] == "finalize" for e in s["events"]))
+    ck.extra["syncs_reaching_peer_tip"] = sum(1 for h in recs if h.get("sync_reached_peer_tip"))
+    for h in recs:
+        if h.get("sync_hang"):
+            ck.fail_case("c04:sync:hang", "a sync entered through Executer.process did not return within 40 s", {"n": h["n"]})
+    ck.obligations += 1
+    if ck.extra["finality_raises_during_sync"] > 0 and ck.extra["syncs_reaching_peer_tip"] > 0:
+        ck.discharged += 1
+    else:
+        ck.fail_obligation("generator:sync", "no real sync through Executer.process raised finality while applying blocks "
+                           "(two-node scenario did not run or did not sync)")
     ck.extra["refused_deletes_at_finality"] = sum(1 for h in recs for s in h["steps"] if s["class"] == "finalized")
     ck.extra["traces_validated_against_impl"] = sum(len(h["steps"]) for h in recs)
     ck.assume += ["maxHeightPrecommited of the post-state is an input (computed by the liskbft module on a scratch staged store)",
@@ -165,7 +179,7 @@ def replay(ck, path):
     ck.seed = doc.get("seed", ck.seed)
     binp = ck.go_build("c04")
     if binp:
-        recs = ck.run_harness(binp, ["-hists", "16", "-steps", "30"], out_name="replay.jsonl")
+        recs = ck.run_harness(binp, ["-hists", "16", "-steps", "30", "-syncs", "6"], out_name="replay.jsonl")
         if recs is not None:
             print("re-executed %d histories with the recorded seed on the current tree" % len(recs))
             evaluate(ck, recs)
